@@ -569,6 +569,27 @@ pub fn replay_net(ctx: &NetCtx, c: &Value, rep: &mut Report) {
                 Err(p) => rep.mismatch(json!({"what": "reload", "rules": rules, "tags": tags, "opt": opt, "observed": "panic", "panic": p, "devs": []})),
             }
         }
+        // the other ways to the same engine: the plain constructors (non-debug rules; debug rules) and a FilterSet
+        // filled line by line.  They must give the verdicts the parametrised constructor gives.
+        {
+            let t: Vec<&str> = tags.iter().map(|s| s.as_str()).collect();
+            let variants: Vec<(&str, Result<Engine, String>)> = if opt {
+                vec![("via-from_rules", guarded(|| Engine::from_rules(&rules, ParseOptions::default()))),
+                     ("via-from_rules_debug", guarded(|| Engine::from_rules_debug(&rules, ParseOptions::default())))]
+            } else {
+                vec![("via-filter-set-line-by-line", guarded(|| {
+                    let mut fs = adblock::lists::FilterSet::new(false);
+                    for r in &rules { let _ = fs.add_filter(r, ParseOptions::default()); }
+                    Engine::from_filter_set(fs, false)
+                }))]
+            };
+            for (label, e) in variants {
+                match e {
+                    Ok(mut e) => { e.use_tags(&t); e.use_resources(ctx.resources.to_vec()); engines.push((label, e)); }
+                    Err(p) => rep.mismatch(json!({"what": label, "rules": rules, "tags": tags, "opt": opt, "observed": "panic", "panic": p, "devs": []})),
+                }
+            }
+        }
         engines.insert(0, ("", eng));
         let mut first: Vec<Option<(Value, Value)>> = vec![];
         for (label, eng) in engines.iter() {
@@ -625,7 +646,7 @@ pub fn replay_net(ctx: &NetCtx, c: &Value, rep: &mut Report) {
                         Some(d) => (d["names"].clone(), if allowed_has(&d["mv"], &obs.0) { obs.0.clone() } else { d["mv"].clone() }),
                         None => (json!([]), Value::Null),
                     };
-                    if !label.is_empty() {
+                    if label.starts_with("after-reload") {
                         if let Some(w) = wire {
                             if allowed_has(&w["mv"][qi], &obs.0) {
                                 devs = w["names"].clone();
@@ -678,7 +699,7 @@ pub fn replay_net(ctx: &NetCtx, c: &Value, rep: &mut Report) {
                             Some(w) if allowed_has(&w["mv"][qi], &obs.0) => (w["names"].clone(), json!({"v": obs.0, "csp": obs.1})),
                             _ => (json!([]), Value::Null),
                         };
-                        rep.mismatch(json!({"what": "reload-differs", "rules": rules, "tags": tags, "opt": opt,
+                        rep.mismatch(json!({"what": if label.starts_with("via-") { "constructor-differs" } else { "reload-differs" }, "label": label, "rules": rules, "tags": tags, "opt": opt,
                             "req": {"url": q.url, "src": q.src, "type": q.alias},
                             "observed": {"v": obs.0, "csp": obs.1}, "allowed": [{"v": orig.0, "csp": orig.1}], "devs": devs, "model": model}));
                     }
